@@ -570,7 +570,22 @@ func extX25519(fr *frame, args []value) value {
 		if err != nil {
 			return tuple{[]value(nil), newErr(i, err.Error())}
 		}
-		return tuple{bytesOfString(string(out)), iface{}}
+		res := bytesOfString(string(out))
+		if isBasepoint(point) {
+			// remember scalar -> public key, so that a later symbolic DH with this
+			// (concrete) public key is recognised as a product of known scalars
+			cl := e.clog()
+			known := false
+			for _, d := range cl.dhs {
+				if d.base == 0 && len(d.scalars) == 1 && sameTerms(i, d.scalars[0], scalar) {
+					known = true
+				}
+			}
+			if !known {
+				cl.dhs = append(cl.dhs, &dhElem{base: 0, scalars: [][]value{scalar}, out: cloneVals(res)})
+			}
+		}
+		return tuple{res, iface{}}
 	}
 	cl := e.clog()
 	// identify the point
